@@ -255,7 +255,7 @@ def run(chk: Check) -> int:
             ctx.account(n, ops, steps)
             if probs:
                 ctx.handle(n, ops, steps, probs, "corpus:" + name)
-        total = chk.budget(500, 7000)
+        total = chk.budget(500, 14000)
         for i in range(total):
             if ctx.found >= 3:
                 break
